@@ -101,9 +101,7 @@ def body(check):
     for c in classes:
         check.guarded("SEAM-EQUIV", "xnum." + c, lambda: seam(check, proj, c))
     check.guarded("SEAM-EQUIV", "modeldisc.fvm1d.calc_res", lambda: residual_uniform(check, proj))
-    try:
-        from .c15 import seam_2d
-    except ImportError:
-        seam_2d = None
-    if seam_2d is not None:
-        seam_2d(check)
+    from . import c15
+    if check.guarded("LAYOUT-AGREE", "modeldisc.fvm2dcart", lambda: c15.layout_agree(check)):
+        check.guarded("SEAM-2D", "modeldisc.fvm2dcart.calc_bc_grad", lambda: c15.seam_2d(check))
+        check.guarded("PERIODIC-CLOSE", "modeldisc.fvm2dcart.calc_bc", lambda: c15.telescope_2d(check))
